@@ -4,7 +4,8 @@ from fractions import Fraction
 from pcv import core, capio, textgen
 
 P = "PcVerif.Props.C14."
-THEOREMS = [P + t for t in ["dfxp_lang_fallback", "dfxp_default_lang_pinned", "dfxp_languages_first_appearance", "primary_syncs_sorted"]]
+THEOREMS = [P + t for t in ["dfxp_lang_fallback", "dfxp_default_lang_pinned", "dfxp_languages_first_appearance", "primary_syncs_sorted",
+                              "sami_lang_test_pinned", "stylesheet_declares_every_language", "stylesheet_old_test_counterexample"]]
 CODES = ["en-US", "fr-FR", "de", "es-419", "en", "pt-BR", "fi", "fil", "es", "est"]   # also codes that are plain string prefixes of another (fi / fil)
 
 
@@ -56,11 +57,18 @@ def explore(chk):
             abstract[first] = []          # an empty first (primary) language
         times = [[(s, e) for (s, e, _) in caps] for caps in abstract.values()]
         op = b.add("sami.plan", "|".join(core.enc_list(t, lambda ab: capio.fr(ab[0]) + ";" + capio.fr(ab[1])) for t in times))
-        jobs.append((abstract, op))
+        op2 = b.add("sami.stylesheet", core.enc_list(list(abstract.keys())))
+        jobs.append((abstract, op, op2))
     out = b.run() if chk.driver_ok else None
     shared_w = {"dfxp": pycaption.DFXPWriter(), "sami": pycaption.SAMIWriter()}
-    for ji_, (abstract, op) in enumerate(jobs):
+    for ji_, (abstract, op, op2) in enumerate(jobs):
         langs = list(abstract.keys())
+        if out is not None:
+            # the language rules of the stylesheet: model vs SAMIWriter._recreate_stylesheet (the set has no styles, no layouts)
+            I_sheet = pycaption.SAMIWriter()._recreate_stylesheet(capio.build_set(abstract))
+            chk.count("sami_stylesheets")
+            if core.dec(out[op2]) != I_sheet:
+                chk.correspondence_failure({"languages": langs, "impl": I_sheet, "model": core.dec(out[op2])}, "SAMI stylesheet (language rules): implementation and model differ")
         reuse = bool(ji_ % 2)          # every other set is written by writer objects that have written the earlier sets
         src = [(l, [(s, " ".join(" ".join(n[1] for n in ns if n[0] == "T").split())) for (s, e, ns) in caps]) for l, caps in abstract.items()]
         base_case = {"languages": langs, "set": {l: [(s, e, [n[1] for n in ns if n[0] == "T"]) for (s, e, ns) in caps] for l, caps in abstract.items()}}
